@@ -326,6 +326,7 @@ def kill_cases(r, n):
             new = ("sha256", b"other value")
         elif old and r.chance(0.2):
             new = old
+        algo = new[0]
         setup = [w_oneshot("s", "sha256", b"other", b"other value")]
         if old:
             setup.append(w_oneshot("s", old[0], key, old[1]))
